@@ -65,6 +65,26 @@ def follow_terminals(env) -> Dict[str, Set[str]]:
     return out
 
 
+def _case_map_keeps_length(env, r) -> bool:
+    """Slicing at fixed positions and upper-casing commute on the words of a rule iff no character the rule can match changes
+    length under str.upper() (as 'ß' -> 'SS' would): decided on the characters of the rule's live DFA transitions."""
+    g = env.grammar
+    alpha = rx.Alphabet.for_patterns([r.pattern], g.reflags, full=True)
+    d = rx.compile_rule(r.pattern, g.reflags, alpha).dfa
+    live = rx.live_states(d)
+    used = set()
+    for s_, row in enumerate(d.trans):
+        if s_ not in live:
+            continue
+        for c, t in enumerate(row):
+            if t in live:
+                used.add(c)
+    for ch, c in alpha.class_of.items():
+        if c in used and len(ch.upper()) != 1:
+            return False
+    return True
+
+
 def check_token_actions(ctx: Ctx, env, rule: str = "R4.action-normalisation"):
     """Every token action that builds a literal / identifier node stores the matched text under the documented
     normalisation (quotes stripped then '' -> ', duration prefix, identifier split on '.'), nothing else."""
@@ -112,7 +132,8 @@ def check_token_actions(ctx: Ctx, env, rule: str = "R4.action-normalisation"):
                 ctx.fail(rule, key, f"token action stores {val!r}, which is not the matched text", gm.loc(r.func))
                 continue
             norm_got = [t[:3] if t[0] == "slice" else t for t in got]
-            ok = norm_got == want or (v.cls == "Duration" and sorted(map(repr, norm_got)) == sorted(map(repr, want)) and norm_got[-1][0] == "slice")
+            ok = norm_got == want or (v.cls == "Duration" and sorted(map(repr, norm_got)) == sorted(map(repr, want)) and
+                                      (norm_got[-1][0] == "slice" or _case_map_keeps_length(env, r)))
             ctx.check(ok, rule, key, f"token action of {r.name} applies {norm_got} to the matched text; the documented normalisation of "
                       f"{v.cls} is {want or 'none (text unchanged)'}", gm.loc(r.func), "name eq 'it''s'" if v.cls == "String" else None)
     ctx.floor("token actions building literals", n_act, 11)
